@@ -22,8 +22,35 @@ CFG = "INIT Init\nNEXT Next\nCHECK_DEADLOCK FALSE\n"
 CFG_SIM = "INIT Init\nNEXT Next\nCHECK_DEADLOCK FALSE\n"
 
 
+_SEP = "\x1e"
+_STATE_HDR = re.compile(r"^State \d+:$")
+
+
+def _split_dump(dump: str, k: int, prefix: str):
+    """Streams TLC's state dump into k chunk files (round robin, one record per state) so that the dump - gigabytes in the thorough
+    tier - is never held in memory as a whole.  Returns (paths, number of states)."""
+    paths = ["%s-chunk-%03d.txt" % (prefix, i) for i in range(k)]
+    fs = [open(p, "w") for p in paths]
+    n = -1
+    try:
+        with open(dump) as f:
+            for line in f:
+                if _STATE_HDR.match(line.rstrip("\n")):
+                    n += 1
+                    fs[n % k].write(_SEP)
+                elif n >= 0:
+                    fs[n % k].write(line)
+    finally:
+        for x in fs:
+            x.close()
+    return paths, n + 1
+
+
 def _chunk_worker(task):
-    texts, seeds = task
+    path, seeds = task
+    with open(path) as f:
+        texts = f.read().split(_SEP)[1:]
+    os.remove(path)
     out = []
     for txt in texts:
         st = tlc.parse_state(txt)
@@ -57,14 +84,12 @@ def run_config(tag: str, seeds: List[Dict[str, Any]], env: Dict[str, str], d: st
     r = tlc.run("Edit", CFG, e, workers=jobs, extra=extra, heap="6g", timeout=3000, cont=False, tag="edit-" + tag)
     if r.error:
         raise tlc.MachineryError("Edit MC (%s): %s" % (tag, r.error[:2000]))
-    with open(dump) as f:
-        txt = f.read()
-    os.remove(dump)
-    states = re.split(r"(?m)^State \d+:\n", txt)[1:]
-    if len(states) != r.distinct:
-        raise tlc.MachineryError("dump has %d states, TLC reported %d" % (len(states), r.distinct))
     k = max(1, jobs * 4)
-    chunks = [(states[i::k], seeds) for i in range(k)]
+    paths, nstates = _split_dump(dump, k, os.path.join(d, tag))
+    os.remove(dump)
+    if nstates != r.distinct:
+        raise tlc.MachineryError("dump has %d states, TLC reported %d" % (nstates, r.distinct))
+    chunks = [(p, seeds) for p in paths]
     ctx = mp.get_context("fork")
     with ctx.Pool(jobs) as pool:
         res = pool.map(_chunk_worker, chunks)
@@ -151,7 +176,9 @@ def main(argv):
                     rep.violation("%s/%s" % (c["op"], clause), inp, detail={"failed": bad, "real_exc": c["exc"]}, signature={"op": c["op"], "clause": clause})
         # E2: every edit-primitive call made by the real pipeline on the restructure domain
         if not args.replay:
-            inputs = rb.domain_inputs(args.tier, args.seed, "XRB", scale=0.5 if quick else 1.0)
+            # (N: block names from the name generator's own namespace, some of them on a generator that has already served another graph -
+            # an edit that draws a name which is already present replaces a block nobody asked to change)
+            inputs = rb.domain_inputs(args.tier, args.seed, "XRBN", scale=0.5 if quick else 1.0)
             res = rb.record_domain(inputs, os.path.join(d, "rb"), jobs=args.jobs, shards=args.jobs, stages=False, events=True,
                                    derive={"edits": "harness.evtcases:edit_cases"}, drop_cases=True)
             live = [r_ for r_ in res if r_["derived"]["edits"]["n"]]
